@@ -160,14 +160,25 @@ async def orchestrator(
 
     except asyncio.CancelledError:
         is_exiting = True
-        tasks = ensemble.get_tasks(ensemble.get_keys())
+
+        # Stop the handling first (the watchers deplete their queues, the running handlers finish),
+        # and only then withdraw from the peering: as soon as our record is gone, the lower-priority
+        # peers resume and would otherwise handle the very same changes concurrently with our last
+        # handlers. The peering observers go with the watchers: their self-touch must not be in flight
+        # together with the withdrawal, or it can put the record back after it.
+        keys = ensemble.get_keys()
+        pingers = {task for key, task in ensemble.pinging_tasks.items() if key in keys}
+        others = {task for task in ensemble.get_tasks(keys) if task not in pingers}
+
+        async def stop_in_order() -> None:
+            await aiotasks.stop(others, title="streaming", logger=logger, interval=10)
+            await aiotasks.stop(pingers, title="pinging", logger=logger, interval=10)
 
         # Ensure the streams are stopped even if the orchestrator is double-cancelled: e.g., first,
         # by a failed stream (see above), and then by the operator, which is stopping for any reason.
         # Otherwise, the streams remain orphaned and run in parallel with the cleanup activities,
         # and the error of the failed stream is lost --- the same as in `queueing.watcher()`.
-        stopping_task = asyncio.create_task(
-            aiotasks.stop(tasks, title="streaming", logger=logger, interval=10))
+        stopping_task = asyncio.create_task(stop_in_order())
         while not stopping_task.done():
             with contextlib.suppress(asyncio.CancelledError):
                 await asyncio.shield(stopping_task)
